@@ -99,3 +99,24 @@ func PinnedSkipCopyAddr(name string) *Case {
 	c.Feature("skipcopy", "true")
 	return c
 }
+
+// PinnedSkipCopyIndexAddr: with skipCopySameType a list element of identical type that is wrapped into a pointer
+// ([]X -> []*X) must be copied, not taken by address (the element lives in the source's backing array).
+func PinnedSkipCopyIndexAddr(name string) *Case {
+	c := &Case{Name: name, Root: "vcase/" + name}
+	conv := &Package{Path: "conv", Name: "conv"}
+	c.Pkgs = []*Package{conv}
+	row := func() *Type { return Struct(F("A", Basic("int")), F("L", Slice(Basic("int")))) }
+	cv := simpleConv(conv, "Converter", "struct", []string{"skipCopySameType"},
+		method1("M0", Slice(row()), Slice(Ptr(row()))),
+		method1("M1", Map(Basic("string"), row()), Map(Basic("string"), Ptr(row()))))
+	for _, m := range cv.Methods {
+		m.Spec.Flags.SkipCopy = true
+	}
+	cv.Spec = &vref.Spec{Seed: 1, NValues: 12, Monitors: []string{"value", "intact", "alias", "mutate"}, Conv: vref.Flags{SkipCopy: true}}
+	c.Convs = []*Converter{cv}
+	c.Patterns = []string{"./conv"}
+	c.Feature("tag", "pinned")
+	c.Feature("skipcopy", "true")
+	return c
+}
